@@ -92,7 +92,9 @@ def stdin_for(c, t, f, step):
 
 ALIASES = [("st", "status -s"), ("ci", "commit -q"), ("lg", "log --oneline -3"), ("rec", "st"), ("sh-alias", "!echo from-shell-alias"),
            ("quoted", "log -1 --format='%s %an'"), ("loop1", "loop2"), ("loop2", "loop1"),
-           ("cia", "-c user.name=AliasAuthor ci"), ("l12", "-c core.abbrev=12 lg"), ("stc", "-C dir st"), ("np", "--no-pager lg")]
+           ("cia", "-c user.name=AliasAuthor ci"), ("l12", "-c core.abbrev=12 lg"), ("stc", "-C dir st"), ("np", "--no-pager lg"),
+           # aliases named like git's own commands: git ignores them
+           ("commit", "status -s"), ("log", "status"), ("checkout", "log -1")]
 NOCOMPARE_STDOUT = {"gc", "count-objects", "fsck"}
 
 
